@@ -683,6 +683,17 @@ func (v *c17Env) regSize() int {
 	return n
 }
 
+func (v *c17Env) regIDs() string {
+	var b strings.Builder
+	for i := 1; i <= v.nBegun+2; i++ {
+		if _, ok := v.reg.Get("tx-" + strconv.Itoa(i)); ok {
+			b.WriteString(strconv.Itoa(i))
+			b.WriteByte(',')
+		}
+	}
+	return b.String()
+}
+
 func (v *c17Env) stateLine() {
 	v.out(fmt.Sprintf("S reg=%d lock=%s", v.regSize(), v.lockState()))
 }
@@ -712,12 +723,21 @@ func (v *c17Env) begin(c int, ro bool, d int) string {
 	if v.svc {
 		// service.BeginTransaction starts with the same cleanup; doing it here first (and letting
 		// the goroutines it wakes run) keeps the order of lock requests a function of the script
+		// ... repeated until it finds nothing more to do: a transaction granted by one round can be
+		// stale at once (its clock started when its Begin was called), and its rollback wakes the
+		// next waiter
 		pend := append([]*c17Call{}, v.calls...)
-		v.reg.CleanupStaleTransactions()
-		v.quiesce()
-		v.checkCleanupWindow()
+		for round := 0; round < 50; round++ {
+			before := v.regIDs()
+			v.reg.CleanupStaleTransactions()
+			v.quiesce()
+			v.checkCleanupWindow()
+			v.oracleStale("begin")
+			if v.regIDs() == before {
+				break
+			}
+		}
 		v.checkWindow(pend, true)
-		v.oracleStale("begin")
 	}
 	base := context.Background()
 	cl := &c17Call{c: c, ro: ro, done: make(chan struct{})}
@@ -759,10 +779,23 @@ func (v *c17Env) begin(c int, ro bool, d int) string {
 	}()
 	v.quiesce()
 	t.beginEnd = v.nowMs()
+	if v.svc {
+		// the service ran its own cleanup inside the call, at some instant up to now
+		v.checkCleanupWindow()
+	}
 	cl.seen = false
 	select {
 	case <-cl.done:
-		return c17Class(cl.err)
+		r := c17Class(cl.err)
+		if r == "timeout" && cl.dlHi > v.lnow {
+			// the machine stalled for longer than the deadline inside this very line: at the noted
+			// time the call was waiting; its time-out is reported with the line whose noted time
+			// has passed the deadline (exactly what happens to a call that times out later)
+			v.held = append(v.held, c17Done{c, r, cl.dlHi})
+			v.stats.waits++
+			return "wait"
+		}
+		return r
 	default:
 		v.stats.waits++
 		return "wait"
@@ -1500,6 +1533,16 @@ func genC17(w *bufio.Writer, seed int64, n int, tier string) {
 	rounds := 150
 	if tier == "thorough" {
 		rounds = 1500
+	}
+	if tier == "thorough" {
+		// the registry's own limit on waiting for the lock (10 s, no deadline from the client)
+		fmt.Fprintf(w, "case t%d-0 svc=0 peer=1 wiring=ttl idle=150 ttlro=650 ttlrw=450\n", seed)
+		for _, l := range []string{"begin 1 rw 0", "begin 2 rw 0", "begin 3 ro 0", "sleep 5000", "put 1 1 1", "sleep 5200",
+			"commit 1", "begin 4 rw 0", "put 4 2 2", "commit 4", "probe", "dump"} {
+			fmt.Fprintln(w, l)
+		}
+		fmt.Fprintln(w, "end")
+		n--
 	}
 	if n >= 10 {
 		fmt.Fprintf(w, "case r%d-0 kind=race svc=0 peer=1 wiring=ttl rounds=%d\nend\n", seed, rounds)
